@@ -472,7 +472,38 @@ func (b *gcBuilder) inlinable(st *pstate, callee *ssa.Function) bool {
 	if b.opts.Inline != nil && b.opts.Inline(callee) {
 		return true
 	}
-	return !b.p.KnownFunc(callee)
+	if b.p.KnownFunc(callee) {
+		return false
+	}
+	// a helper the pinned tree does not know is expanded in place — unless it calls itself: a recursion cannot be written
+	// out, the helper stays a call (and is a unit the role-finding rules look at on its own)
+	return !selfRecursive(callee)
+}
+
+var selfRecCache = map[*ssa.Function]bool{}
+
+func selfRecursive(fn *ssa.Function) bool {
+	if v, ok := selfRecCache[fn]; ok {
+		return v
+	}
+	rec := false
+	o := fn
+	if fn.Origin() != nil {
+		o = fn.Origin()
+	}
+	for _, c := range allCalls(fn) {
+		if cal := StaticCallee(c.Common()); cal != nil {
+			co := cal
+			if cal.Origin() != nil {
+				co = cal.Origin()
+			}
+			if co == o {
+				rec = true
+			}
+		}
+	}
+	selfRecCache[fn] = rec
+	return rec
 }
 
 func (b *gcBuilder) maxFrames() int {
@@ -1741,6 +1772,63 @@ func normalizeGuards(gs []*Term) ([]*Term, bool) {
 			return nil, false
 		}
 		out = append(out, g)
+	}
+	// constant bounds on one term that exclude each other (`0 <= x ∧ x <= -1`), read over the reals so that the argument
+	// holds for every numeric type
+	type bound struct {
+		v      int64
+		strict bool
+		ok     bool
+	}
+	lo, hi := map[string]bound{}, map[string]bound{}
+	plain := func(t *Term) (int64, bool) {
+		if t.Op != "#" || strings.Contains(t.Leaf, ":") || strings.Contains(t.Leaf, "/") {
+			return 0, false
+		}
+		return t.constInt()
+	}
+	for _, g := range out {
+		if len(g.Args) != 2 || (g.Op != "<" && g.Op != "<=" && g.Op != "==") {
+			continue
+		}
+		a, b := g.Args[0], g.Args[1]
+		setLo := func(k string, v int64, strict bool) {
+			if cur, ok := lo[k]; !ok || v > cur.v || (v == cur.v && strict) {
+				lo[k] = bound{v, strict, true}
+			}
+		}
+		setHi := func(k string, v int64, strict bool) {
+			if cur, ok := hi[k]; !ok || v < cur.v || (v == cur.v && strict) {
+				hi[k] = bound{v, strict, true}
+			}
+		}
+		if v, ok := plain(a); ok && !b.isConst() { // v op b
+			switch g.Op {
+			case "<":
+				setLo(b.String(), v, true)
+			case "<=":
+				setLo(b.String(), v, false)
+			case "==":
+				setLo(b.String(), v, false)
+				setHi(b.String(), v, false)
+			}
+		}
+		if v, ok := plain(b); ok && !a.isConst() { // a op v
+			switch g.Op {
+			case "<":
+				setHi(a.String(), v, true)
+			case "<=":
+				setHi(a.String(), v, false)
+			case "==":
+				setLo(a.String(), v, false)
+				setHi(a.String(), v, false)
+			}
+		}
+	}
+	for k, l := range lo {
+		if h, ok := hi[k]; ok && (l.v > h.v || (l.v == h.v && (l.strict || h.strict))) {
+			return nil, false
+		}
 	}
 	sort.Slice(out, func(i, j int) bool { return out[i].String() < out[j].String() })
 	return out, true
